@@ -82,6 +82,7 @@ type Engine struct {
 	fnInfo    map[*ssa.Function]*FnInfo
 	kf        []KnownFinding
 	harness   string
+	harnessPkg *ssa.Package
 	verbose   bool
 	stepLimit int
 }
@@ -95,6 +96,8 @@ type HarnessCfg struct {
 	TimeoutS  int      `json:"timeout_s"`
 	MaxPaths  int      `json:"max_paths"`
 	NoMerge   bool     `json:"no_merge"`
+	Go        string            `json:"go"`    // "skip": go statements are recorded, not run
+	Stubs     map[string]string `json:"stubs"` // callee full name -> harness function that replaces it
 	Mode      string   `json:"mode"` // closed | open
 	Open      *OpenCfg `json:"open,omitempty"`
 	Assume    []string `json:"assumptions"`
@@ -1113,6 +1116,17 @@ func (e *Engine) invoke(st *State, fv *FuncVal, args []Value, resultTo ssa.Value
 		return e.doBuiltin(st, f, fv.builtin, args, ins, setResult)
 	}
 	fn := fv.fn
+	if len(e.cfg.Stubs) > 0 {
+		if repl, ok := e.cfg.Stubs[fn.String()]; ok {
+			if pkg := e.harnessPkg; pkg != nil {
+				if rf := pkg.Func(repl); rf != nil {
+					e.res.Stubs["stub "+fn.String()+" -> "+repl]++
+					fn = rf
+					fv = &FuncVal{fn: rf}
+				}
+			}
+		}
+	}
 	if r, handled := e.intrinsic(st, f, fn, args, ins, setResult, resultTo, deferred); handled {
 		return r
 	}
@@ -1160,6 +1174,24 @@ func (e *Engine) invoke(st *State, fv *FuncVal, args []Value, resultTo ssa.Value
 func (e *Engine) doGo(st *State, f *Frame, x *ssa.Go) int {
 	if st.open != nil {
 		return e.openGo(st, f, x)
+	}
+	if e.cfg.Go == "skip" {
+		// the spawned goroutine is not run: the harness analyses one goroutine at a time (stated
+		// in the check's assumptions); the spawn is recorded as an event
+		name := "go"
+		if fn := x.Common().StaticCallee(); fn != nil {
+			name = "go " + fn.String()
+		}
+		st.events = append(st.events, Event{name: "go", s: name})
+		k := "ev:go"
+		cur := st.ghost[k]
+		if cur == nil {
+			cur = c64(0)
+		}
+		st.ghost[k] = Add(cur, c64(1))
+		e.res.Stubs["go statement skipped ("+siteFn(x)+")"]++
+		f.ip++
+		return stCont
 	}
 	unsupp("go statement in closed mode")
 	return stDone
